@@ -87,9 +87,13 @@ def corpus_files():
     return sorted(out)
 
 
+# families explored by seeded simulation only (their exhaustive graphs are too large for the compile/format harnesses)
+SIM_ONLY = ["cfe3"]
+
+
 def default_plan(tier):
     if tier == "thorough":
-        return [(f, "bfs", None) for f in FAMILIES] + [("sim", "sim", 6000)]
+        return [(f, "bfs", None) for f in FAMILIES] + [(f, "sim", 3000) for f in SIM_ONLY] + [("sim", "sim", 6000)]
     # quick: small exhaustive families + seeded simulation of every family
     return [("ws", "bfs", 2), ("attr", "bfs", 1), ("inl", "bfs", 2), ("cf", "bfs", None), ("cfe", "bfs", None), ("call", "bfs", 3), ("callh", "bfs", None), ("deep", "bfs", None)] + \
-           [(f, "sim", 700) for f in FAMILIES if f not in ("cf", "cfe", "callh", "deep")] + [("sim", "sim", 1500)]
+           [(f, "sim", 700) for f in FAMILIES if f not in ("cf", "cfe", "callh", "deep")] + [(f, "sim", 700) for f in SIM_ONLY] + [("sim", "sim", 1500)]
